@@ -31,4 +31,5 @@ Bound == Len(h) <= Depth
 (* exhaustive design check: bounded by the number of steps *)
 MCDepth == 7
 MCBound == Len(h) <= MCDepth
+MCBoundQ == Len(h) <= 5
 =============================================================================
